@@ -1219,8 +1219,13 @@ udp_timer_cb(void *arg)
 		if (p->dialer && now > p->next_creq) {
 			udp_send_creq(ep, p);
 		}
-		if (p->next_wake < ep->next_wake) {
-			ep->next_wake = p->next_wake;
+		// A refresh that is overdue (the peer is late, or gone) gives
+		// us nothing to do before the pipe expires.  Sleeping "until"
+		// a time in the past would spin, and a difference of exactly
+		// -1 would be taken for NNG_DURATION_INFINITE.
+		nni_time wake = p->next_wake < now ? p->expire : p->next_wake;
+		if (wake < ep->next_wake) {
+			ep->next_wake = wake;
 		}
 	}
 	refresh = ep->next_wake == NNI_TIME_NEVER
